@@ -76,13 +76,15 @@ type Finding struct {
 type abortRun struct{}
 
 type Run struct {
-	maxT   int // thread limit (length of every vector clock)
-	w      *Worker
-	eng    *Engine
-	tt     *TermTable
-	prefix []Dec
-	log    []Dec
-	spawn  [][]Dec // sibling jobs produced by this run
+	maxT    int   // thread limit (length of every vector clock)
+	lastNow *Term // the previous reading of the clock (time.Now is non-decreasing)
+	clockN  int64 // readings taken so far (Config.ClockTickNs)
+	w       *Worker
+	eng     *Engine
+	tt      *TermTable
+	prefix  []Dec
+	log     []Dec
+	spawn   [][]Dec // sibling jobs produced by this run
 
 	pc    []*Term
 	atoms map[int]bool
